@@ -223,9 +223,16 @@ def run(ctx):
         if c[0] == 'discr' and c[1][0] in ('var', 'ite', 'agg'):
             return ('opt', c[1], tuple(g['vals']))
         lits = str_lits(c)
-        if ' e.p.' in lits:
+        # a test OF the token is a comparison whose own operand is the literal (or a named boolean built from such
+        # comparisons); an expression that merely depends on how far the cursor got (`text.get(cur..)`) is not
+        direct = set()
+        if c[0] == 'call' and 'PartialEq' in c[1]:
+            direct = {a[1] for a in c[2] if isinstance(a, tuple) and a and a[0] == 'str'} | \
+                     {a[1][1][1] for a in c[2] if isinstance(a, tuple) and a and a[0] == 'mem' and a[1][0] == 'h' and a[1][1][0] == 'str'}
+        named = c[0] in ('var', 'ite')
+        if ' e.p.' in (direct if not named else lits):
             return ('token-ep', tv, c)
-        if lits & {'+', '#'}:
+        if (direct if not named else lits) & {'+', '#'}:
             return ('token-check', tv, c)
         if 'x' in lits and c[0] in ('var', 'ite'):
             return ('takes', tv, c)
@@ -395,6 +402,30 @@ def run(ctx):
                 okamb = True
     if not okamb:
         ctx.violation('C12.R3', KEY + ':no-ambiguity-check', 'no `second match => Err` path inside the candidate loop', w)
+    # R5b: the two characters after the cursor are a destination square only if they parse as one -- otherwise they may
+    # be optional suffixes (promotion piece and check sign: `e8Q+`) and the square read so far is the destination.
+    # So no rejection may be DECIDED by the outcome of Square::from_str on the text: its failure must fall through.
+    SQ_FROM_STR = '<square::Square as core::str::traits::FromStr>::from_str'
+    decided_by_square = []
+    for st in rets:
+        v = norm(st['value'])
+        is_err = match(err, v) is not None or (v[0] == 'call' and v[1].endswith('::from_residual'))
+        if not is_err or st['blk'] in L['blocks']:
+            continue
+        for g in guards(s, st['blk'], transitive=False):
+            if g['cond'] is None:
+                continue
+            gc = norm(g['cond'])
+            from ..expr import expand_var
+            probe = norm(expand_var(gc)) if gc[0] == 'var' else gc
+            if any(isinstance(x, tuple) and x and x[0] == 'call' and x[1] == SQ_FROM_STR for x in walk(probe)):
+                decided_by_square.append(st)
+    if decided_by_square:
+        ctx.violation('C12.R5', KEY + ':square-parse-rejects', 'the text is rejected because the characters after the cursor do not parse as a square; they can be '
+                      'optional suffixes (promotion piece, check sign) of a move whose destination was already read, e.g. `e8Q+`',
+                      where(body, decided_by_square[0]['line']))
+    else:
+        ctx.ok('C12.R5', 'no rejection is decided by a failed square parse (the already-read file/rank serve as destination instead)', w)
     # R5 optional tokens
     def key_of(l):
         if l[0] in ('token-ep', 'token-check', 'takes', 'other'):
@@ -423,6 +454,10 @@ def run(ctx):
             if not implied:
                 viol = (tok, cl)
     # rejecting edges controlled by the absence of a token
+    if viol and __import__('os').environ.get('C12_DEBUG'):
+        tok, cl = viol
+        for l in cl:
+            print('LIT', l[0], l[1] if len(l) > 1 else '', (sh(l[2], 300) if len(l) > 2 and isinstance(l[2], tuple) else ''))
     if viol:
         tok, cl = viol
         others = sorted({l[0] for l in cl if l[0] not in (tok, 'loop', 'found')})
